@@ -528,6 +528,7 @@ func main() {
 	// call cones (cones.go): which functions of the library each of these functions can reach
 	cones, cerr := callCones(root)
 	if cones != nil {
+		fmt.Printf("Definition go_captures_loop_var : list (string * string) :=\n  [%s].\n\n", strings.Join(loopVarCaptures, "; "))
 		all := []string{}
 		for n := range cones {
 			all = append(all, q(n))
